@@ -131,12 +131,7 @@ impl Obj {
                 }
                 match (op, &a[..]) {
                     ("resize", [n]) => {
-                        // after a panic left a linked-but-unindexed node at the LRU end, `resize` can spin forever
-                        // (`while map.len() > cap { remove_lru(); }` with `remove_lru()` returning None): a liveness
-                        // issue, not a memory-safety one; it is skipped once a panic has been injected (DESIGN.md, C18)
-                        if FIRED.with(|f| f.get()).is_none() || c.len() <= *n as usize {
-                            let _ = in_call(|| c.resize(*n as usize));
-                        }
+                        let _ = in_call(|| c.resize(*n as usize));
                     }
                     ("removelru", []) => {
                         let _ = in_call(|| c.remove_lru());
